@@ -148,7 +148,7 @@ func enumerateGridSpecs(rng *rand.Rand, p c05Proto, thorough bool) []injSpec {
 		return specs
 	}
 	// quick: per (type, field): the length-prefix breaker (+1 on the first element) by the first sender of the type,
-	// and one more (element, kind, sender) combination at random
+	// and one (kind, sender) combination at random per element position (first, second, middle, last)
 	rng.Shuffle(len(specs), func(i, j int) { specs[i], specs[j] = specs[j], specs[i] })
 	first := map[string]int{}
 	for _, sp := range specs {
@@ -159,7 +159,12 @@ func enumerateGridSpecs(rng *rand.Rand, p c05Proto, thorough bool) []injSpec {
 	cnt := map[string]int{}
 	var pick []injSpec
 	for _, sp := range specs {
-		k := sp.Type + "." + sp.Field
+		// one (kind, sender) combination per element position of a field: the first, second, middle and last element
+		// of a list play different parts (length prefixes, scalars, point coordinates)
+		k := fmt.Sprintf("%s.%s[%d]", sp.Type, sp.Field, sp.Elem)
+		if strings.HasPrefix(p.name, "ecdsa-keygen") || strings.HasPrefix(p.name, "ecdsa-resharing") {
+			k = sp.Type + "." + sp.Field // (the two expensive protocols: one per field)
+		}
 		if sp.Kind == "+1" && sp.Elem == 0 && sp.Dev == first[sp.Type] {
 			pick = append(pick, sp)
 			continue
